@@ -1,7 +1,7 @@
 (* C12  Divisor arithmetic is the free abelian group on the vertices. *)
 From Coq Require Import ZArith List Bool Lia.
 Import ListNotations.
-From CF Require Import ZSum ListAux Defs Core Machines GraphLink QredLink PyDict ImpRep TranslatedImpCFDivisor ImpLinkArith.
+From CF Require Import ZSum ListAux Defs Core Machines GraphLink QredLink PyDict ImpRep TranslatedImpCFDivisor ImpLinkArith ImpLinkEq.
 Open Scope Z_scope.
 
 Lemma nth_dadd n D E v : (v < n)%nat -> nthZ (dadd n D E) v = nthZ D v + nthZ E v.
@@ -81,11 +81,22 @@ Theorem C12_source_add_sub : forall g gg vs so dd D n2 vs2 dd2 E, rep_graph gg g
   d_add (nv g) n2 D E = (if Nat.eqb (nv g) n2 then Ok (dadd (nv g) D E) else Err).
 Proof. intros g gg vs so dd D n2 vs2 dd2 E Hg Hvs Hnd Hso HR H2 HR2. split; [apply add_refines; assumption|]. split; [apply sub_refines; assumption|reflexivity]. Qed.
 Print Assumptions C12_source_add_sub.
+(* D == X as translated from the CURRENT source: False when X is not a CFDivisor; for two divisors - each on dictionaries representing its own graph - exactly the model's
+   d_eqb (C12_eq_spec: same vertices, same multiplicities, same chips), in whatever order the vertex set is iterated; no KeyError can escape *)
+Theorem C12_source_eq : forall g1 g2 gg1 gg2 vs1 vs2 dd1 dd2 D E so, wfb g1 = true -> wfb g2 = true -> rep_graph gg1 g1 -> rep_graph gg2 g2 ->
+  rep_vset (nv g1) vs1 -> rep_vset (nv g2) vs2 -> rep_div (nv g1) dd1 D -> rep_div (nv g2) dd2 E -> (forall l, Permutation.Permutation (so l) l) ->
+  CFDivisor___eq__ dd1 vs1 gg1 so (Some (vs2, gg2, dd2)) = PyOk (d_eqb g1 D g2 E) /\ CFDivisor___eq__ dd1 vs1 gg1 so None = PyOk false.
+Proof. intros g1 g2 gg1 gg2 vs1 vs2 dd1 dd2 D E so W1 W2 G1 G2 V1 V2 R1 R2 Hso. split; [|reflexivity].
+  destruct (eq_refines g1 g2 W1 W2 gg1 gg2 G1 G2 vs1 vs2 V1 V2 dd1 dd2 D E R1 R2 so Hso) as (b & Hb & Hiff). rewrite Hb. f_equal.
+  apply Bool.eq_true_iff_eq. rewrite Hiff, C12_eq_spec. unfold eq_spec. tauto. Qed.
+Print Assumptions C12_source_eq.
 Example C12_source_nonvacuous : let g := [[0;2;1];[2;0;1];[1;1;0]] in
   CFDivisor___init__ (fun l => rev l) [0;1;2]%nat (dict_of_graph g) [(2%nat, 5); (0%nat, -1)] = PyOk ([(2%nat, 5); (1%nat, 0); (0%nat, -1)], 4) /\
   CFDivisor___init__ (fun l => l) [0;1;2]%nat (dict_of_graph g) [(2%nat, 5); (2%nat, 1)] = PyExn ([(0%nat, 0); (1%nat, 0); (2%nat, 0)], 0) /\
   CFDivisor___init__ (fun l => l) [0;1;2]%nat (dict_of_graph g) [(2%nat, 5); (3%nat, 1)] = PyExn ([(0%nat, 0); (1%nat, 0); (2%nat, 5)], 5) /\
   CFDivisor___rmul__ (dict_of_div [3; 0; -2]) [0;1;2]%nat (dict_of_graph g) (fun l => l) (-2) = PyOk ([(0%nat, -6); (1%nat, 0); (2%nat, 4)], -2) /\
   CFDivisor___add__ [0;1;2]%nat (dict_of_div [3; 0; -2]) (dict_of_graph g) (fun l => rev l) [2;0;1]%nat (dict_of_div [1; 1; 1]) = PyOk ([(2%nat, -1); (1%nat, 1); (0%nat, 4)], 4) /\
-  CFDivisor___sub__ [0;1;2]%nat (dict_of_div [3; 0; -2]) (dict_of_graph g) (fun l => l) [0;1]%nat (dict_of_div [1; 1]) = PyExn tt.
+  CFDivisor___sub__ [0;1;2]%nat (dict_of_div [3; 0; -2]) (dict_of_graph g) (fun l => l) [0;1]%nat (dict_of_div [1; 1]) = PyExn tt /\
+  CFDivisor___eq__ (dict_of_div [3; 0; -2]) [0;1;2]%nat (dict_of_graph g) (fun l => rev l) (Some ([2;1;0]%nat, dict_of_graph g, dict_of_div [3; 0; -2])) = PyOk true /\
+  CFDivisor___eq__ (dict_of_div [3; 0; -2]) [0;1;2]%nat (dict_of_graph g) (fun l => l) (Some ([0;1;2]%nat, dict_of_graph [[0;1;1];[1;0;1];[1;1;0]], dict_of_div [3; 0; -2])) = PyOk false.
 Proof. vm_compute. repeat split. Qed.
